@@ -62,6 +62,21 @@ func subset(rng *rand.Rand, xs []string, nonEmpty bool) []string {
 
 func encodeValue(codec string, v []byte) []byte {
 	switch codec {
+	case "proto", "proto-short":
+		// google.protobuf.BytesValue{value: v}, canonical encoding (vanguard's built-in proto codec)
+		if len(v) == 0 {
+			return nil
+		}
+		out := []byte{0x0A}
+		for n := uint64(len(v)); ; {
+			if n < 0x80 {
+				out = append(out, byte(n))
+				break
+			}
+			out = append(out, byte(n)|0x80)
+			n >>= 7
+		}
+		return append(out, v...)
 	case "hexa":
 		return []byte(hex.EncodeToString(v))
 	case "rev":
@@ -171,7 +186,7 @@ func splitChunks(rng *rand.Rand, b []byte) []string {
 var appHeaderPool = [][2]string{{"X-Foo", "bar"}, {"X-Foo", "baz, qux"}, {"X-Data-Bin", "AAEC/w"}, {"Authorization", "Bearer t0k"},
 	{"X-Empty", ""}, {"Te", "trailers"}, {"User-Agent", "verif/1"}, {"X-Ünï", "v"}, {"Accept", "*/*"}}
 
-var timeoutPool = []string{"", "", "", "5S", "100m", "99999999n", "9H", "1H", "0n", "1s", "S", "-1S", "1.5S", "100000000S"}
+var timeoutPool = []string{"", "", "", "5S", "100m", "99999999n", "9H", "1H", "0n", "1s", "S", "-1S", "1.5S", "100000000S", "100000000H", "123456789H", "99999999H", "8H", "00000009H", "100000000m"}
 var connectTimeoutPool = []string{"", "", "", "0", "250", "9999999999", "10000000000", "99999999999999999999", "-1", "abc", "1.5"}
 
 type clientPlan struct {
@@ -1117,6 +1132,18 @@ func genScenarioWith(e *Emitter, rng *rand.Rand, override func(*Scenario)) *Scen
 	}
 	if (m.idempotent && rng.IntN(2) == 0) || (!m.clientStr && !m.serverStr && rng.IntN(25) == 0) {
 		cp.proto = "connect-get"
+	}
+	if !hostile && cp.proto != "connect-get" && !restOnly && rng.IntN(10) == 0 {
+		// vanguard's built-in proto codec, accepted by the service (so that the messages are never
+		// decoded: only their framing changes); gRPC and gRPC-Web may use the short content type
+		cp.codec = "proto"
+		if cp.proto != "connect-stream" && cp.proto != "connect-unary" && rng.IntN(2) == 0 {
+			cp.codec = "proto-short"
+		}
+		if !slices.Contains(sc.Cfg.Codecs, "proto") {
+			sc.Cfg.Codecs = append(sc.Cfg.Codecs, "proto")
+		}
+		e.Class("req:codec-" + cp.codec)
 	}
 	buildRequest(rng, sc, m, cp, hostile, e)
 	ss, ok := probe(sc)
